@@ -20,7 +20,7 @@ BASE_FLAGS = ['-std=gnu++17', '-DHAVE_CONFIG_H=1', '-D_FILE_OFFSET_BITS=64', '-D
               '-I%s/_build' % REPO, '-I%s/src' % REPO, '-I%s/_build/src' % REPO, '-I%s/harness/include' % VERIF,
               '-fno-builtin', '-fstrict-aliasing', '-w']
 LOWER = ['-O1', '-fno-pic', '-Xclang', '-disable-llvm-passes', '-S', '-emit-llvm']
-OPT_IR = ['-O1', '-fno-pic', '-fno-vectorize', '-fno-slp-vectorize', '-fno-unroll-loops', '-fno-builtin', '-S', '-emit-llvm', '-w']
+OPT_IR = ['-O1', '-fno-pic', '-mllvm', '-simplifycfg-sink-common=false', '-fno-vectorize', '-fno-slp-vectorize', '-fno-unroll-loops', '-fno-builtin', '-S', '-emit-llvm', '-w']
 
 CBMC_BASE = ['--unwinding-assertions', '--bounds-check', '--pointer-check', '--div-by-zero-check', '--signed-overflow-check',
              '--undefined-shift-check', '--drop-unused-functions', '--trace', '--json-ui', '--no-standard-checks', '--verbosity', '8']
@@ -141,11 +141,18 @@ def cbmc_once(b, tier, extra_unwindset):
     t0 = time.time()
     outp = os.path.join(b.wd, 'cbmc.json')
     with open(outp, 'w') as fo:
+        import signal
+        pr = subprocess.Popen(['/usr/bin/time', '-f', 'RSSKB=%M', '-o', os.path.join(b.wd, 'rss.txt')] + cmd, stdout=fo, stderr=subprocess.PIPE, text=True,
+                              preexec_fn=limit_mem(mem), cwd=b.wd, start_new_session=True)
         try:
-            r = subprocess.run(['/usr/bin/time', '-f', 'RSSKB=%M', '-o', os.path.join(b.wd, 'rss.txt')] + cmd, stdout=fo, stderr=subprocess.PIPE, text=True,
-                               timeout=tl, preexec_fn=limit_mem(mem), cwd=b.wd)
+            _, err = pr.communicate(timeout=tl)
         except subprocess.TimeoutExpired:
+            try: os.killpg(pr.pid, signal.SIGKILL)      # the solver is a grandchild (behind /usr/bin/time): kill the whole group
+            except Exception: pass
+            pr.wait()
             raise Inconclusive('cbmc timeout after %ds (no verdict): %s' % (tl, h['name']))
+        class R: pass
+        r = R(); r.returncode = pr.returncode; r.stderr = err or ''
     b.wall = time.time() - t0
     try: b.rss_kb = int(re.search(r'RSSKB=(\d+)', open(os.path.join(b.wd, 'rss.txt')).read()).group(1))
     except Exception: b.rss_kb = 0
@@ -173,7 +180,7 @@ def cbmc(b, tier):
     loops with a concrete trip count (table/bucket initialisation, fixed-size copies) then unwind exactly, data-dependent loops keep the harness bound"""
     h = b.h
     cap = h.get('unwind_cap', 130); extra = {}
-    for attempt in range(5):
+    for attempt in range(7 if h.get('unwind_gentle') else 5):
         results = cbmc_once(b, tier, extra)
         bad = [r for r in results if r.get('status') == 'FAILURE' and '.unwind.' in r.get('property', '')]
         if not bad or h.get('unwind_is_violation') or h.get('no_unwind_adapt'): return results
@@ -182,7 +189,7 @@ def cbmc(b, tier):
             lid = r['property'].replace('.unwind.', '.')
             cur = extra.get(lid, b.unwind)
             if cur >= cap: continue
-            extra[lid] = min(cap, max(cur * 4, 34)); grew = True
+            extra[lid] = min(cap, max(cur * 2, cur + 2) if h.get('unwind_gentle') else max(cur * 4, 34)); grew = True
         if not grew: return results
     return results
 
